@@ -13,6 +13,8 @@ def run(ctx):
     starts = [e for e in sem.events if e[0] == "start"]
 
     r1 = ctx.rule("R1", "process start is dominated by wait-for-all-dependencies and the all-completed check", min_instances=2)
+    from .localpool import rule_enqueue_binding
+    rule_enqueue_binding(ctx, r1)
     if not starts:
         r1.violation(construct, "no process creation found in the task coroutine", fi.where)
     n_dep_starts = 0
